@@ -1,6 +1,6 @@
 import sqlalchemy as sa
 from .operation import Operation
-from .utils import versioned_column_properties, parent_class
+from .utils import option, versioned_column_properties, parent_class
 
 
 def first_level(paths):
@@ -39,6 +39,13 @@ class Reverter(object):
                         subpath
                     )
                 )
+
+    @property
+    def operation_type(self):
+        return getattr(
+            self.obj,
+            option(self.obj, 'operation_type_column_name')
+        )
 
     def revert_properties(self):
         for prop in versioned_column_properties(self.parent_class):
@@ -107,11 +114,11 @@ class Reverter(object):
     def __call__(self):
         if self.obj in self.visited_objects:
             return (
-                None if self.obj.operation_type == Operation.DELETE
+                None if self.operation_type == Operation.DELETE
                 else self.version_parent
             )
 
-        if self.obj.operation_type == Operation.DELETE:
+        if self.operation_type == Operation.DELETE:
             # Nothing to do if the parent object is already gone
             if self.version_parent is not None:
                 self.session.delete(self.version_parent)
